@@ -389,7 +389,8 @@ func (s *c49MsgSigner) SignMessage(r io.Reader, msg []byte, opts crypto.SignerOp
 
 type c49PoolEntry struct {
 	k, kinv, r *big.Int
-	rZero      bool
+	rZero      bool // r has a leading zero octet
+	rZero2     bool // r has two leading zero octets
 }
 
 var (
@@ -407,8 +408,13 @@ func c49Pool(cv *c49Curve) ([]c49PoolEntry, error) {
 	}
 	n := cv.c.Params().N
 	var pool []c49PoolEntry
-	zeros := 0
-	for i := 0; (len(pool) < cv.poolN || zeros < 3) && i < 24*cv.poolN; i++ {
+	// at least three entries with a leading zero octet in r; for P-521 (where
+	// that is every other entry) also one with two leading zero octets
+	zeros, zeros2, want2 := 0, 0, 0
+	if cv.size == 66 {
+		want2 = 1
+	}
+	for i := 0; (len(pool) < cv.poolN || zeros < 3 || zeros2 < want2) && i < 24*cv.poolN+8000*want2; i++ {
 		kb := c49Scalar(cv, fmt.Sprintf("c49pool|%d|%s|%d", ev.Seed(), cv.name, i))
 		ek, err := cv.e.NewPrivateKey(kb)
 		if err != nil {
@@ -425,12 +431,19 @@ func c49Pool(cv *c49Curve) ([]c49PoolEntry, error) {
 		if kinv == nil {
 			continue
 		}
-		pool = append(pool, c49PoolEntry{k: k, kinv: kinv, r: r, rZero: r.BitLen() <= 8*(cv.size-1)})
-		if pool[len(pool)-1].rZero {
+		pe := c49PoolEntry{k: k, kinv: kinv, r: r, rZero: r.BitLen() <= 8*(cv.size-1), rZero2: r.BitLen() <= 8*(cv.size-2)}
+		if len(pool) >= cv.poolN && !(pe.rZero && zeros < 3) && !(pe.rZero2 && zeros2 < want2) {
+			continue // the table is full: only the still missing shapes are added
+		}
+		pool = append(pool, pe)
+		if pe.rZero {
 			zeros++
 		}
+		if pe.rZero2 {
+			zeros2++
+		}
 	}
-	if len(pool) < cv.poolN || zeros < 3 {
+	if len(pool) < cv.poolN || zeros < 3 || zeros2 < want2 {
 		return nil, fmt.Errorf("nonce pool for %s incomplete", cv.name)
 	}
 	c49Pools[cv.name] = pool
@@ -446,7 +459,7 @@ type c49Det struct {
 	cv      *c49Curve
 	key     *c49ECKey
 	seed    uint64
-	mode    string // normal | R0 | S0 | mix
+	mode    string // normal | R0 | R00 | S0 | mix
 	ctr     uint64
 	trouble *string
 }
@@ -472,7 +485,7 @@ func (s *c49Det) Sign(_ io.Reader, digest []byte, _ crypto.SignerOpts) ([]byte, 
 	start := int(binary.BigEndian.Uint32(hh[:4]) % uint32(len(pool)))
 	mode := s.mode
 	if mode == "mix" {
-		mode = []string{"normal", "R0", "S0"}[s.ctr%3]
+		mode = []string{"normal", "R0", "S0", "R00"}[s.ctr%4]
 	}
 	sOf := func(p c49PoolEntry) *big.Int {
 		v := new(big.Int).Mul(p.r, s.key.d)
@@ -486,6 +499,9 @@ func (s *c49Det) Sign(_ io.Reader, digest []byte, _ crypto.SignerOpts) ([]byte, 
 			p := pool[(start+j)%len(pool)]
 			if pass == 0 && mode == "R0" && !p.rZero {
 				continue
+			}
+			if pass == 0 && mode == "R00" && !p.rZero2 && (s.cv.size == 66 || !p.rZero) {
+				continue // two leading zero octets where the table has them (P-521), else one
 			}
 			cand := sOf(p)
 			if cand.Sign() == 0 {
@@ -560,7 +576,7 @@ func c49DrawKeySpec(rt *rapid.T, label string) c49KeySpec {
 	}
 	s.Kind = rapid.SampledFrom([]string{"native", "opaque", "msgsigner", "det", "det", "det"}).Draw(rt, label+".kind")
 	if s.Kind == "det" {
-		s.Mode = rapid.SampledFrom([]string{"normal", "R0", "S0", "mix"}).Draw(rt, label+".mode")
+		s.Mode = rapid.SampledFrom([]string{"normal", "R0", "R00", "S0", "mix"}).Draw(rt, label+".mode")
 		s.Seed = rapid.Uint64().Draw(rt, label+".seed")
 	}
 	return s
@@ -1800,7 +1816,7 @@ func TestC49(t *testing.T) {
 			wants = append(wants, "X00", "Y00")
 		}
 		for _, want := range wants {
-			for _, kind := range []string{"native", "opaque", "msgsigner", "det:normal", "det:R0", "det:S0", "det:mix"} {
+			for _, kind := range []string{"native", "opaque", "msgsigner", "det:normal", "det:R0", "det:R00", "det:S0", "det:mix"} {
 				s := c49KeySpec{Typ: typ, Want: want, Kind: kind}
 				if strings.HasPrefix(kind, "det:") {
 					s.Kind, s.Mode, s.Seed = "det", kind[4:], uint64(len(specs))*7919+ev.Seed()
